@@ -538,5 +538,5 @@ package cisco
 //vc:ghost var lastFollowed *cmd
 //vc:func (*State).deleteUnused$1
 //vc:  assign after "follow(c2)"#1 lastFollowed = c2
-//vc:  assert[C01,C07] at "stillReferenced[pair{prefix, name}] = true" @referencedObjectProtected !c2.needed
-//vc:  invariant[C01,C07] 2 "for _, c2 := range s.a.lookup[prefix][name]" @everyUnneededCommandFollowed forall k int :: { rangeslice[k] } k == rangeindex && 0 <= k && !rangeslice[k].needed ==> lastFollowed == rangeslice[k]
+//vc:  assert[C01,C07,C08] at "stillReferenced[pair{prefix, name}] = true" @referencedObjectProtected !c2.needed
+//vc:  invariant[C01,C07,C08] 2 "for _, c2 := range s.a.lookup[prefix][name]" @everyUnneededCommandFollowed forall k int :: { rangeslice[k] } k == rangeindex && 0 <= k && !rangeslice[k].needed ==> lastFollowed == rangeslice[k]
